@@ -120,6 +120,7 @@ class rip (packet_base):
       raw = raw[20:]
     if len(raw) != 0:
       self.err('RIP had partial entry?  %s bytes left' % (len(raw),))
+      return None
 
     self.parsed = True
 
